@@ -315,6 +315,18 @@ func (dm *DMap) putOnCluster(e *env) error {
 	}
 
 	nt := dm.prepareEntry(e)
+	if e.putConfig.OnlyUpdateTTL {
+		// The replicas store the whole entry. Carry the current value of the key with
+		// the new expiry instead of an empty one.
+		current, err := f.storage.Get(e.hkey)
+		if errors.Is(err, storage.ErrKeyNotFound) {
+			err = ErrKeyNotFound
+		}
+		if err != nil {
+			return err
+		}
+		nt.SetValue(current.Value())
+	}
 	if dm.s.config.ReplicaCount > config.MinimumReplicaCount {
 		switch dm.s.config.ReplicationMode {
 		case config.AsyncReplicationMode:
